@@ -11,6 +11,7 @@ from __future__ import annotations
 import ast
 import json
 import os
+import re
 import resource
 import shutil
 import signal
@@ -218,13 +219,23 @@ def run_case(text, canary):
     res = {"status": "ok", "detail": ""}
     real_env, real_cwd = os.environ, os.getcwd
     spy = _SpyEnv(real_env)
+    m_lim = re.match(r"# verif: recursion-limit (\d+)\n", text)
+    old_lim = sys.getrecursionlimit()
+    base_depth = 0
+    fr_ = sys._getframe()
+    while fr_ is not None:
+        base_depth += 1
+        fr_ = fr_.f_back
     try:
         _state["armed"] = True
         os.environ = spy
         os.getcwd = lambda: (spy.reads.append("getcwd()"), real_cwd())[1]
         try:
+            if m_lim:
+                sys.setrecursionlimit(base_depth + int(m_lim.group(1)))
             emit(P.parse(text))
         finally:
+            sys.setrecursionlimit(old_lim)
             _state["armed"] = False
             os.environ, os.getcwd = real_env, real_cwd
             for key in spy.reads:
@@ -421,12 +432,43 @@ def header_stress_case(draw):
 
 
 @st.composite
+def deep_nesting_case(draw):
+    """blocks nested 30 ... 2600 levels deep (one space of indentation per level), one or several header kinds, optionally inside the main loop or a
+    helper: every stage (line parser, emitter) recurses per level, and each must end in firmware or ValueError"""
+    # the interpreter's recursion limit is part of the environment (an embedding application may leave far less than the default 1000 frames); a
+    # lowered limit keeps these inputs small: n levels cost n*n/2 characters of indentation
+    limit = draw(st.sampled_from([100, 150, 220]))
+    n = draw(st.integers(limit // 3, int(2.2 * limit)))
+    kinds = draw(st.lists(st.sampled_from(["if x > 0:", "while x > 0:", "for i in range(2):", "if led.get_state():", "else_chain"]), min_size=1, max_size=3))
+    lines = []
+    outer = draw(st.sampled_from(["top", "loop", "func"]))
+    base = 0
+    if outer == "loop":
+        lines.append("while True:"); base = 1
+    elif outer == "func":
+        lines.append("def deep(p):"); base = 1
+    for i in range(n):
+        k = kinds[i % len(kinds)]
+        ind = " " * (base + i)
+        if k == "else_chain":
+            lines += [ind + "if x > 1:", ind + " led.off()", ind + "else:"]
+        else:
+            lines.append(ind + k)
+    lines.append(" " * (base + n) + draw(st.sampled_from(["led.on()", "x = x + 1", "mon.write(x)", "pass", "sleep(1)"])))
+    if outer == "func":
+        lines += [" return p", "deep(1)"]
+    return f"# verif: recursion-limit {limit}\n" + PRELUDE + "x = 2\n" + "\n".join(lines) + "\n"
+
+
+@st.composite
 def hostile_case(draw):
-    pick = draw(st.integers(0, 7))
-    if pick == 0:
+    pick = draw(st.integers(0, 15))
+    if pick in (0, 1):
         return draw(amplify_case())
-    if pick == 1:
+    if pick in (2, 3):
         return draw(header_stress_case())
+    if pick == 4:
+        return draw(deep_nesting_case())
     tmpl = draw(st.sampled_from(TEMPLATES))
     pool = hostile_pool("CANARY_PATH")
     safe_fill = ["1", "13", "x", "'s'", "True", "[1, 0]", "led"]
@@ -546,7 +588,7 @@ def minimise(text, bucket, max_rounds=40):
     lines = text.split("\n")
     cdir = tempfile.mkdtemp(prefix="c11m-")
     try:
-        i = 0
+        i = 1 if lines and lines[0].startswith("# verif: recursion-limit") else 0   # the environment marker is part of the case
         rounds = 0
         while i < len(lines) and rounds < max_rounds:
             cand = lines[:i] + lines[i + 1:]
